@@ -15,19 +15,21 @@ ORDER_OPS = ("order_first", "order_last", "order_before", "order_after")
 
 def gen_value(rng):
     r = rng.random()
-    if r < 0.45:
-        return rng.choice(["", " ", "  "]) + rng.choice(WORDS) + rng.choice(["", "", " ", "\n"])
-    if r < 0.8:
-        lines = [rng.choice(WORDS)]
-        for _ in range(rng.randint(1, 3)):
-            if rng.random() < 0.2:
-                lines.append("# assigned comment")
-            lines.append(rng.choice([" ", "\t", "  "]) + rng.choice(WORDS))
-        return "\n".join(lines) + rng.choice(["", "\n"])
-    if r < 0.88:
-        return "\n " + rng.choice(WORDS) + "\n " + rng.choice(WORDS)
-    # values the interface must refuse
-    return rng.choice(["a\n\n b", "a\nb", "a\n b\n#c", "a\n \n b", "x\n# only comment"])
+    if r < 0.12:
+        # values the interface must refuse
+        return rng.choice(["a\n\n b", "a\nb", "a\n b\n#c", "a\n \n b", "x\n# only comment"])
+    first = rng.choice(["", "", " ", "\t"]) + rng.choice(WORDS + ["", ""]) + \
+        rng.choice(["", "", " ", "  "])
+    ncont = rng.choice([0, 0, 0, 1, 1, 2, 3])
+    if ncont == 0:
+        return first + rng.choice(["", "", "", "\n"])
+    lines = [first]
+    for i in range(ncont):
+        if rng.random() < 0.2:
+            lines.append("# assigned comment")
+        lines.append(rng.choice([" ", " ", "\t", "  "]) + rng.choice(WORDS) +
+                     rng.choice(["", "", " "]))
+    return "\n".join(lines) + rng.choice(["", "\n"])
 
 
 def gen_key(rng, doc, pi, p_missing=0.2):
